@@ -238,7 +238,16 @@ def unit_closure_counts(text):
             b0 = next((k for k, l_ in enumerate(seg) if l_.startswith("{")), 0)
             body = "\n".join(seg[b0:])
             body = re.sub(r"\b(assert|invariant|ensures|requires|decreases)\b[^;]*;", "", body)
-            out[q] = out.get(q, 0) + len(CLOSURE_RX.findall(body))
+            n_ = 0
+            for cm_ in CLOSURE_RX.finditer(body):
+                # only closures that can act through a mutable reference matter (that effect is what Verus
+                # loses): the closure's parameters mention `mut`, or the call chain it is passed to starts from
+                # a mutable borrow (`..as_mut().and_then(|d| ..)`, `..iter_mut().map(|x| ..)`, `rc_deref_mut()`)
+                k_ = max(body.rfind(";", 0, cm_.start()), body.rfind("{", 0, cm_.start()), body.rfind("}", 0, cm_.start()))
+                chain_ = body[k_ + 1:cm_.start()]
+                if re.search(r"\bmut\b", cm_.group(0)) or re.search(r"(as_mut|iter_mut|_mut)\s*\(", chain_):
+                    n_ += 1
+            out[q] = out.get(q, 0) + n_
     return out
 
 
@@ -278,7 +287,7 @@ def reclassify_unknown_callees(res, text, tag):
             if moved_:
                 res["failures"] = [f for f in res["failures"] if f not in moved_]
                 res.setdefault("needs_contract", []).extend(
-                    "%s (%s; the function gained a closure the contracts do not know: %d, was %d)" % (
+                    "%s (%s; the function gained a closure over a mutable borrow that the contracts do not know: %d, was %d)" % (
                         f["function"], f["kind"], cnow[f["function"]], clos0[f["function"]]) for f in moved_)
     unknown = [q for q in unit_fn_names(text) if q not in inv]
     if not unknown:
